@@ -7,6 +7,7 @@ package ecscache
 
 import (
 	"context"
+	"errors"
 	"fmt"
 	"net"
 	"net/netip"
@@ -250,6 +251,13 @@ func (u *vc04EcsUpstream) ServeDNS(ctx context.Context, rw dnsserver.ResponseWri
 	u.calls[vdns.QKey(q, false)+"|"+tag]++
 	u.total++
 
+	switch kind, _ := vdns.KindOf(q.Name); kind {
+	case vdns.KErr:
+		return errors.New("scripted upstream error")
+	case vdns.KSilent:
+		return nil
+	}
+
 	resp := vdns.Answer(req, tag, true)
 	if opt := resp.IsEdns0(); opt != nil && resp.Rcode == dns.RcodeServerFailure {
 		// Failures carry an Extended DNS Error, the one EDNS option the cache
@@ -351,13 +359,20 @@ func vc04EcsExchange(t *rapid.T, h dnsserver.Handler, c vc04Client, req *dns.Msg
 	nrw := dnsserver.NewNonWriterResponseWriter(addr, addr)
 	ctx := agd.ContextWithRequestInfo(context.Background(), vc04ReqInfo(c, req))
 	err := h.ServeDNS(ctx, nrw, req)
+	// A handler error (the server then answers SERVFAIL) and a handler that
+	// writes nothing are outcomes like any other: they are rendered as marker
+	// messages so that warm and fresh instances can be compared.
 	if err != nil {
-		t.Fatalf("ServeDNS: %v", err)
+		resp = (&dns.Msg{}).SetReply(req)
+		resp.Rcode = 3841
+
+		return resp
 	}
 
 	resp = nrw.Msg()
 	if resp == nil {
-		t.Fatalf("no response written for %v", req.Question)
+		resp = (&dns.Msg{}).SetReply(req)
+		resp.Rcode = 3842
 	}
 
 	return resp
@@ -457,8 +472,13 @@ func TestVerifC04EcsHistory(t *testing.T) {
 				kind := vdns.Kind(rapid.IntRange(0, int(vdns.KKinds)-1).Draw(t, "kind"))
 				ti := rapid.IntRange(0, len(vdns.TTLs)-1).Draw(t, "ttlIdx")
 				zone := rapid.SampledFrom([]string{"u.test.", "s.test."}).Draw(t, "zone")
+				name := vdns.Name(kind, ti, zone)
+				if rapid.IntRange(0, 9).Draw(t, "minimalName") == 0 {
+					name = rapid.SampledFrom(vdns.MinimalNames).Draw(t, "minimal")
+				}
+
 				q = vc04Query{
-					name:   vdns.Name(kind, ti, zone),
+					name:   name,
 					qt:     rapid.SampledFrom([]uint16{dns.TypeA, dns.TypeA, dns.TypeAAAA, dns.TypeTXT, dns.TypeHTTPS, dns.TypeMX}).Draw(t, "qt"),
 					qc:     rapid.SampledFrom([]uint16{dns.ClassINET, dns.ClassINET, dns.ClassINET, dns.ClassCHAOS}).Draw(t, "qc"),
 					do:     rapid.IntRange(0, 3).Draw(t, "do") == 0,
